@@ -1,6 +1,6 @@
 (* C10 — literal content is preserved exactly: leaves are emitted from their own text; the one place
    where content can change is post-processing (known finding F4, witnessed below). *)
-From TV Require Import Conv Format Render RenderProofs SeqProofs ConvProofs Post PostProofs StripLit Survive.
+From TV Require Import Conv Format Render RenderProofs SeqProofs ConvProofs Post PostProofs StripLit Survive Sig SigTree SigScope SigConv Attr.
 
 Section Full.
   Variable parse : str -> tree.
@@ -77,3 +77,18 @@ Print Assumptions C10_emitted_text_reaches_output.
 Example C10_example_clean :
   clean [34;97;10;98;34] /\ ends_solid [34;97;10;98;34] /\ clean_b [34;97;32;32;10;98;34] = false.
 Proof. split; [apply clean_b_spec; reflexivity|split; [split; [discriminate|reflexivity]|reflexivity]]. Qed.
+
+(* (6) no literal is dropped or altered beyond blanks and delimiters, at any width (SigConv.v): for a tree in scope the
+   rendered text has exactly the signature of the source tree; together with (4)/(5), which say that post-processing
+   only removes blanks before line feeds, every character of every literal reaches the output in order *)
+Theorem C10_signature_conserved_in_scope :
+  forall swidth cfg t d n,
+    reorder_import_items cfg = false -> sc (annotate t) = true ->
+    convert_root swidth cfg t = Ok (d, n) ->
+    forall w es, render_events w d = Some es -> seqs d (map atom_of_event es) ->
+      sig (flatten_events es) = tsig t.
+Proof.
+  intros swidth cfg t d n Hr Hs Hc w es _ Hq. rewrite flatten_events_sig.
+  destruct (convert_root_conserves swidth cfg t d n Hr Hs Hc) as [Hd Hw]. rewrite <- Hd. apply seqs_sig; assumption.
+Qed.
+Print Assumptions C10_signature_conserved_in_scope.
